@@ -4,6 +4,8 @@ CONSTANTS
   Ids = {1}
   NotifCap = 1
   Ops <- OpsDef
+  RecycleChannels = FALSE
+  MayGiveUp = {"a"}
 INVARIANT Truthful
 PROPERTY Delivered
 CHECK_DEADLOCK FALSE
